@@ -15,7 +15,7 @@ ASSUMPTIONS = ['payload length 0 is outside the property (sink_put_chunk/source_
 EXHAUSTIVE = {'quick': False, 'thorough': False}
 TECHNIQUE = 'Coq proof (wire = prefix ++ payload for every entry point; decode(encode) round trip over scripted sources via the endpoint theorems) + correspondence'
 LEVEL_TEXT = ('Properties_C13.v: every encoder entry point puts prefix(kind, n) ++ designated payload on an accepting sink and reports |prefix| + n; over-long payloads are refused '
-              'with nothing emitted; decoding prefix ++ payload ++ rest from any plain source returns the payload and leaves rest; ENOMEM when the destination is too small; for EVERY behaviour script of the sink what reached it is a prefix of prefix ++ payload and a success means all of it (C13_memory_to_sink_any); a fixed-width frame decoded from ANY source into ANY sink hands over exactly the framed octets on success and a prefix otherwise (C13_decode_to_sink_fixed); every entry point returns (C13_encoders_return / C13_decoders_return).')
+              'with nothing emitted; decoding prefix ++ payload ++ rest from any plain source returns the payload and leaves rest; ENOMEM when the destination is too small; for EVERY behaviour script of the sink what reached it is a prefix of prefix ++ payload and a success means all of it (C13_memory_to_sink_any); a fixed-width frame decoded from ANY source into ANY sink hands over exactly the framed octets on success and a prefix otherwise (C13_decode_to_sink_fixed); every entry point returns (C13_encoders_return / C13_decoders_return); decoding into a buffer APPENDS the payload to the filled region and leaves the buffer exactly as it was when the free space is too small (C13_decode_into_buffer, C13_decode_into_buffer_enomem).')
 LEVEL_NOTE = 'Trusted: Coq kernel; hand model of length-prefix.c incl. the kind table (correspondence-tested); C15 for the fixed-width codecs. No axioms.'
 
 KMAX = {0: 2**63 - 1, 1: 255, 2: 65535, 3: 2**32 - 1, 4: 65535, 5: 2**32 - 1}
